@@ -19,7 +19,7 @@ Ltac sq_cbn :=
 Ltac sq_simpl := sq_cbn; repeat (rewrite bind_Ok; sq_cbn).
 
 Ltac dI I := destruct I as [I_ns0 I_nodes0 I_nodup0 I_hni0 I_ht0 I_tni0 I_hqi0 I_tqi0 I_order0 I_hq0 I_hqs0 I_tq0 I_tqs0
-                            I_alloc0 I_ni0 I_base0 I_qs0 I_szb0 I_clean0].
+                            I_alloc0 I_base0 I_qs0 I_szb0 I_clean0].
 
 Definition hd_slot (l : list slot) : slot := match l with [] => None | x :: _ => x end.
 Definition last_slot (l : list slot) : slot := last l None.
@@ -204,7 +204,6 @@ Proof.
         -- destruct (I_alloc0 i ltac:(lia)) as [id Hid]. exists id.
            pose proof (zget_inv _ _ _ Hid) as (_ & Hn & Hl).
            rewrite zget_some by lia. rewrite nth_error_app1 by lia. auto.
-      * rewrite app_length. cbn. lia.
       * apply Forall_app. split; auto. constructor; [|constructor]. unfold QUEUE_MAX_MALLOC_SIZE, POW30 in *. lia.
       * unfold hp. sq_simpl. rewrite OA by lia. fold (hp q).
         erewrite FA by reflexivity. rewrite firstn_app.
@@ -234,10 +233,6 @@ Proof.
     + (* nil: allocate *)
       rewrite make_eq by (sq_simpl; lia). sq_simpl.
       set (g := next_size (queueSize q)) in *.
-      assert (NI : nodeIndex q <= tailNodeIndex q).
-      { destruct (Z.le_gt_cases (nodeIndex q) (tailNodeIndex q)); auto. exfalso.
-        destruct (I_alloc q I (tailNodeIndex q + 1) ltac:(destruct I; lia)) as [id Hid].
-        rewrite zget_some in Hid by (destruct I; lia). rewrite TN in Hid. congruence. }
       unfold setq, sets. sq_simpl. repeat (rewrite zset_some by (destruct I; lia); sq_simpl). rewrite TN.
       unfold getq, gets. sq_simpl. rewrite !zget_some by (destruct I; lia). rewrite TN.
       rewrite !nth_error_upd_same by lia. sq_simpl.
@@ -274,7 +269,6 @@ Proof.
            ++ subst i. exists (length (heap q)). rewrite zget_some by lia. rewrite TN. apply nth_error_upd_same. lia.
            ++ destruct (I_alloc0 i ltac:(lia)) as [id Hid]. exists id.
               rewrite zget_some in * by lia. rewrite nth_error_upd_other by lia. auto.
-        -- rewrite upd_length. lia.
         -- apply Forall_upd; auto. unfold QUEUE_MAX_MALLOC_SIZE, POW30 in *. lia.
         -- unfold hp. sq_simpl. rewrite OA by lia. fold (hp q). unfold flat.
            rewrite (firstn_concat_agree _ (view q) n1).
